@@ -48,6 +48,14 @@ CHECKS['C05'] = dict(
          'replica means and the reweighted flag are computed by configuration number; 11 kinds of un-alignable requests must raise.',
     note='Trusts RefObs.combine for the first-order ratio <w o>/<w>.')
 
+CHECKS['C13'] = dict(
+    technique='property-based testing (Hypothesis): resampling definitions recomputed with numpy (np.delete leave-one-out, x[table].mean()), round trips, operation sequences for seeding',
+    level='exploration', design='DESIGN.md 4/C13',
+    text='Single-replica observables of length 5..60 (500 thorough) with every list kind and data kind; Hypothesis-drawn bootstrap tables (any table for export, '
+         'full-column-rank by construction for import, too few samples must raise); default seeding checked through the saved table, repeated calls, a second '
+         'observable of the same chain and of the same chain name with another length in the same process.',
+    note='The definition of the resampled means is recomputed independently; import tolerance scales with cond of the projector.')
+
 PENDING_REASON = 'check under construction in this build phase; not claimed until its quick tier is silent on the unchanged tree'
 
 
